@@ -15,7 +15,7 @@ RULE = ('every labelled simple graph on n <= N vertices (all 2^(n(n-1)/2) edge s
 ASSUMPTIONS = ['vertices are small ints', 'treewidth oracle: Bodlaender et al. subset DP, plain Python']
 METHODS = ('min_fill', 'quickbb', 'acb')
 BLOCK = 64
-CASE_TIMEOUT_S = 120.0   # a case is a block of up to 128 graphs x 2 orders x 3 methods
+CASE_TIMEOUT_S = 300.0   # a case is a block of up to 128 graphs x 2 orders x 3 methods
 
 
 def bounds(tier):
